@@ -30,6 +30,30 @@ M = {
  "m9": lambda: rep("src/simulate.c", "log_message (NULL, \"\\t\" YEL \"%s()\" NOR \" at \" CYN \"%s\" NOR \", in program /%s (object %s)\\n\", ftd.name,\n                       get_line_number (p[1].pc, p[1].prog), p[1].prog->name, p[1].ob->name);", "log_message (NULL, \"\\t\" YEL \"%s()\" NOR \" at \" CYN \"%s\" NOR \", in program /%s (object %s)\\n\", ftd.name,\n                       get_line_number (p[1].pc, p[1].prog), p[1].prog->name, p[0].ob ? p[0].ob->name : p[1].ob->name);"),
  # M10 error path: the heart beat of the failing object is no longer switched off
  "m10": lambda: rep("src/error_context.c", "      set_heart_beat (current_heart_beat, 0);", "      /* set_heart_beat (current_heart_beat, 0); */"),
+ # ---- round 2 ----
+ # N1 helper with a narrower type: the noted offset of an initialiser line goes through an unsigned char
+ "n1": lambda: rep("lib/lpc/program/icode.c", "il.offset = (int) CURRENT_PROGRAM_SIZE;", "il.offset = (unsigned char) CURRENT_PROGRAM_SIZE;"),
+ # N2 statement moved behind the loop that modifies its operand: last_size_generated is advanced by the REST of sz
+ "n2": lambda: rep("lib/lpc/program/icode.c", "      last_size_generated += sz;\n      while (sz > 255)", "      while (sz > 255)") or
+               rep("lib/lpc/program/icode.c", "      *p++ = (unsigned char)sz;\n      STORE_SHORT (p, s);\n    }\n  line_being_generated = line;", "      *p++ = (unsigned char)sz;\n      STORE_SHORT (p, s);\n      last_size_generated += sz;\n    }\n  line_being_generated = line;"),
+ # N3 condition/statement moved across another: the include push decrements current_line AFTER saving the parent's segment
+ "n3": lambda: rep("lib/lpc/lex.c", "      current_line--;\n      save_file_info (current_file_id, current_line - current_line_saved);\n      current_line_base += current_line;", "      save_file_info (current_file_id, current_line - current_line_saved);\n      current_line--;\n      current_line_base += current_line;"),
+ # N4 reset done on the success path only: last_size_generated is cleared when a program is finished, no longer when the parser starts
+ "n4": lambda: (rep("lib/lpc/program/icode.c", "  last_size_generated = 0;\n  init_line_being_generated = 0;", "  init_line_being_generated = 0;"),
+                rep("lib/lpc/program/icode.c", "      switch_to_line (-1);\t/* generate line numbers for the end */", "      switch_to_line (-1);\t/* generate line numbers for the end */\n      last_size_generated = 0;")),
+ # N5 wrong but plausible variable: the error mapping names the program of the current OBJECT
+ "n5": lambda: rep("src/error_context.c", 'add_mapping_string (m, "program", current_prog->name);', 'add_mapping_string (m, "program", current_object ? current_object->prog->name : current_prog->name);'),
+ # N6 wrong but plausible variable: find_line takes the file name from the string table of the CURRENT program
+ "n6": lambda: rep("src/simulate.c", "*ret_file = progp->strings[file_idx - 1];", "*ret_file = (current_prog ? current_prog : progp)->strings[file_idx - 1];"),
+ # N7 the scan of program_file_id looks at the later half of the segments only
+ "n7": lambda: rep("lib/lpc/compiler.c", "for (i = 1; i < n; i += 2)\n        {\n          if (fi[i] == (unsigned short) file_id)", "for (i = (n / 4) * 2 + 1; i < n; i += 2)\n        {\n          if (fi[i] == (unsigned short) file_id)"),
+ # N8 stale cached value across a call: the block address is read before add_to_mem_block() may move the block
+ "n8": lambda: (rep("lib/lpc/program/icode.c", "  size_t i, n = mem_block[A_INIT_LINES].current_size / sizeof (init_line_t);\n", "  size_t i, n = mem_block[A_INIT_LINES].current_size / sizeof (init_line_t);\n  char *program_block = mem_block[A_PROGRAM].block;\n"),
+                rep("lib/lpc/program/icode.c", "prog_code = mem_block[A_PROGRAM].block + base + il->offset;", "prog_code = program_block + base + il->offset;")),
+ # N9 cleanup skipped on a rare path: the include stack is not unwound when the lexer had given up (fatal lexer error)
+ "n9": lambda: rep("lib/lpc/lex.c", "  while (inctop)\n    {\n      incstate_t *p;\n\n      p = inctop;\n      close (yyin_desc);\n      opt_trace (TT_COMPILE|3, \"closed fd = %d (%s)\\n\"", "  while (inctop && !lex_fatal)\n    {\n      incstate_t *p;\n\n      p = inctop;\n      close (yyin_desc);\n      opt_trace (TT_COMPILE|3, \"closed fd = %d (%s)\\n\""),
+ # N10 i_generate_node compares with the counter of the function-code block only (the distinction of the initialiser block lost)
+ "n10": lambda: rep("lib/lpc/program/icode.c", "expr->line != (current_block == A_INITIALIZER ? init_line_being_generated : line_being_generated))", "expr->line != line_being_generated)"),
 }
 M[sys.argv[1]]()
 print("applied", sys.argv[1])
